@@ -171,6 +171,9 @@ package messaging
 //@   assigns p.outgoingBuf.elements, elems(p.outgoingBuf.elements), nSend
 
 // ---- Deliver: append to in, NotifyRecv exactly when in was empty (and there is an owner) ----
+// ASSUMPTION msg != nil: the code does not check it (Send does, through msg.Meta()). After Deliver(nil) the Retrieve*/Peek*
+// methods cannot tell "empty" from "nil at the front": RetrieveIncoming removes the element, returns nil and skips
+// NotifyAvailable even when the buffer was full (reproduced on the real code, see the C11 report).
 //@ fn (*defaultPort).Deliver
 //@   property C11
 //@   requires portWF(p) && msg != nil
